@@ -10,13 +10,16 @@ PID = 'C01'
 LONG = 'x' * 290 + '@long.example'
 NONUTF8 = b'\xff\xfeweird\x80@example.org'
 SPECIAL = 'a+b/c=d@e.f_g-h'
+# well-formed multi-byte UTF-8 (2-, 3- and 4-byte sequences; a Cyrillic look-alike of a database name): shown as sent, not byte by byte
+UTF8 = 'frob-\u03b1\u00e9-\u20ac-\U0001f600@\u00f6penssh.com'
+LOOKALIKE = '\u0430es256-ctr'
 
 ALPHA = {
-    'kex': ['curve25519-sha256', 'diffie-hellman-group14-sha256', 'frob-kex@example.org', LONG, NONUTF8, SPECIAL,
+    'kex': ['curve25519-sha256', 'diffie-hellman-group14-sha256', 'frob-kex@example.org', LONG, NONUTF8, SPECIAL, UTF8,
             'gss-gex-sha1-dZuIebMjgUqaxvbF7hDbAw==', 'gss-group14-sha256-a+b/c0==', 'gss-', ''],
-    'key': ['ssh-ed25519', 'rsa-sha2-512', 'frob-key@example.org', LONG, NONUTF8, SPECIAL, ''],
-    'enc': ['aes256-ctr', 'chacha20-poly1305@openssh.com', 'frob-enc@example.org', LONG, NONUTF8, SPECIAL, ''],
-    'mac': ['hmac-sha2-256', 'hmac-sha1-etm@openssh.com', 'frob-mac@example.org', LONG, NONUTF8, SPECIAL, ''],
+    'key': ['ssh-ed25519', 'rsa-sha2-512', 'frob-key@example.org', LONG, NONUTF8, SPECIAL, UTF8, ''],
+    'enc': ['aes256-ctr', 'chacha20-poly1305@openssh.com', 'frob-enc@example.org', LONG, NONUTF8, SPECIAL, LOOKALIKE, ''],
+    'mac': ['hmac-sha2-256', 'hmac-sha1-etm@openssh.com', 'frob-mac@example.org', LONG, NONUTF8, SPECIAL, UTF8, ''],
 }
 BASE = {'kex': ['sntrup761x25519-sha512@openssh.com', 'ext-info-s'], 'key': ['ssh-ed25519', 'ssh-frob@example.org'],
         'enc': ['aes128-ctr', 'aes128-gcm@openssh.com'], 'mac': ['hmac-sha2-512', 'umac-128-etm@openssh.com']}
